@@ -168,7 +168,9 @@ def run_case(exe, shim, xml_path, scratch, tag, sched, populate=None, rlimit=Non
     o = Obs()
     try:
         if other_env:
-            env.update({"TZ": "Asia/Tokyo", "LC_ALL": "C", "LANG": "C", "HOME": "/nonexistent", "COLUMNS": "40"})
+            # another locale / time zone / HOME and a wall clock 400 days and some hours ahead (another year)
+            env.update({"TZ": "Asia/Tokyo", "LC_ALL": "C", "LANG": "C", "HOME": "/nonexistent", "COLUMNS": "40",
+                        "IOFAULT_TIME_SHIFT": str(400 * 86400 + 7 * 3600 + 11)})
         p = subprocess.run([exe, "--output-dir", "out" if other_env else out_dir] + list(extra) + [xml_path], env=env,
                            cwd=root if other_env else None, stdout=subprocess.PIPE,
                            stderr=subprocess.PIPE, timeout=120, preexec_fn=pre)
